@@ -103,18 +103,18 @@ theorem packetEnv_wf : EnvWF packetEnv rk0 := by
   simp only [packetEnv, Env.find] at h
   split at h
   · cases h
-    refine ⟨Nat.zero_le _, by simp +decide [TagsAsc, reqPacketFields], ?_⟩
+    refine ⟨Nat.zero_le _, by simp +decide [TagsAsc], ?_⟩
     intro f hf
     simp only [reqPacketFields, List.mem_cons, List.not_mem_nil, or_false] at hf
     rcases hf with rfl | rfl | rfl | rfl | rfl | rfl | rfl | rfl | rfl | rfl <;>
-      simp +decide [FieldOK, TyOK, ScalarOK, Ty.isAtom, Ty.isScalar, mapStrStr]
+      simp +decide [FieldOK, TyOK, ScalarOK]
   · split at h
     · cases h
-      refine ⟨Nat.zero_le _, by simp +decide [TagsAsc, rspPacketFields], ?_⟩
+      refine ⟨Nat.zero_le _, by simp +decide [TagsAsc], ?_⟩
       intro f hf
       simp only [rspPacketFields, List.mem_cons, List.not_mem_nil, or_false] at hf
       rcases hf with rfl | rfl | rfl | rfl | rfl | rfl | rfl | rfl | rfl <;>
-        simp +decide [FieldOK, TyOK, ScalarOK, Ty.isAtom, Ty.isScalar, mapStrStr]
+        simp +decide [FieldOK, TyOK, ScalarOK]
     · cases h
 
 theorem find_req : packetEnv.find reqPacketName = some reqPacketFields := by
@@ -123,9 +123,9 @@ theorem find_req : packetEnv.find reqPacketName = some reqPacketFields := by
 theorem find_rsp : packetEnv.find rspPacketName = some rspPacketFields := by
   simp +decide [packetEnv, Env.find, reqPacketName, rspPacketName]
 
-def I16 (i : Int) : Prop := -(2:Int)^15 ≤ i ∧ i < (2:Int)^15
-def I8 (i : Int) : Prop := -(2:Int)^7 ≤ i ∧ i < (2:Int)^7
-def I32 (i : Int) : Prop := -(2:Int)^31 ≤ i ∧ i < (2:Int)^31
+abbrev I16 (i : Int) : Prop := -(2:Int)^15 ≤ i ∧ i < (2:Int)^15
+abbrev I8 (i : Int) : Prop := -(2:Int)^7 ≤ i ∧ i < (2:Int)^7
+abbrev I32 (i : Int) : Prop := -(2:Int)^31 ≤ i ∧ i < (2:Int)^31
 
 /-- the members of a request packet are in the range of their Go types -/
 structure ReqPacketOK (p : ReqPacket) : Prop where
